@@ -12,7 +12,7 @@ namespace Cobweb
 def usesSys : Kind → Bool | .sysEv _ => true | _ => false
 def usesEvt : Kind → Bool | .bcEv _ => true | .entEv _ _ => true | _ => false
 def usesEnt : Kind → Bool | .entReact _ _ => true | .entEv _ _ => true | _ => false
-def usesDsp : Kind → Bool | .dspReact _ => true | _ => false
+def usesDsp : Kind → Bool | .dspReact _ _ => true | _ => false
 
 /-- Commands waiting for their `setup` that a frame holds. -/
 def framePending : Frame → List (Nat × Kind)
@@ -44,91 +44,6 @@ structure PendInv (s : St) : Prop where
   ent : (s.trkEnt.prepared.map (·.1)).Perm (pend usesEnt (allPending s))
   dsp : (s.trkDsp.prepared.map (·.1)).Perm (pend usesDsp (allPending s))
 
-/-! ### what `start` removes -/
-
-theorem split_at_first {α : Type} (p : α → Bool) (l : List α) (j : Nat) (h : findIdx' p l 0 = some j) :
-    ∃ pre x post, l = pre ++ x :: post ∧ pre.length = j ∧ p x = true := by
-  obtain ⟨x, hx, hpx, _⟩ := findIdx'_spec p l 0 j h
-  have hj : j < l.length := by have := (findIdx'_lt p l 0 j h).2; omega
-  simp only [Nat.sub_zero] at hx
-  refine ⟨l.take j, x, l.drop (j + 1), ?_, by simp [List.length_take]; omega, hpx⟩
-  have hget : l[j] = x := by
-    have := List.getElem?_eq_getElem hj; rw [this] at hx; exact Option.some.inj hx
-  rw [← hget]
-  exact (List.take_append_drop j l).symm.trans (by rw [List.drop_eq_getElem_cons hj])
-
-/-- Removing (by `swap_remove`) the first entry whose system matches removes exactly one occurrence of that system. -/
-theorem first_match_perm {β : Type} (l : List (Nat × β)) (sys : Nat) :
-    (findIdx' (fun p => p.1 == sys) l 0 = none ∧ sys ∉ l.map (·.1)) ∨
-    (∃ j x, findIdx' (fun p => p.1 == sys) l 0 = some j ∧ l[j]? = some x ∧ x.1 = sys ∧ sys ∈ l.map (·.1) ∧
-      ((swapRemove l j).map (·.1)).Perm ((l.map (·.1)).erase sys)) := by
-  cases hf : findIdx' (fun p => p.1 == sys) l 0 with
-  | none =>
-    left
-    have hnone := findIdx'_none _ _ _ hf
-    refine ⟨rfl, ?_⟩
-    intro hin
-    obtain ⟨x, hx, hxs⟩ := List.mem_map.mp hin
-    have := hnone x hx
-    simp [hxs] at this
-  | some j =>
-    right
-    obtain ⟨pre, x, post, hl, hlen, hpx⟩ := split_at_first _ _ _ hf
-    have hxs : x.1 = sys := by simpa using hpx
-    have hfirst : ∀ y ∈ pre, y.1 ≠ sys := by
-      obtain ⟨_, _, _, hfi⟩ := findIdx'_spec _ _ _ _ hf
-      intro y hy
-      obtain ⟨k, hk, hyk⟩ := List.getElem_of_mem hy
-      have hkj : k < j - 0 := by omega
-      have := hfi k hkj y (by rw [hl, List.getElem?_append_left hk, List.getElem?_eq_getElem hk, hyk])
-      simpa using this
-    have hget : l[j]? = some x := by rw [hl, ← hlen]; simp
-    refine ⟨j, x, rfl, hget, hxs, by rw [hl]; simp [hxs], ?_⟩
-    rw [hl, ← hlen]
-    have h1 := (swapRemove_perm pre x post).map (·.1)
-    refine h1.trans ?_
-    have : (List.map (·.1) (pre ++ x :: post)).erase sys = List.map (·.1) (pre ++ post) := by
-      simp only [List.map_append, List.map_cons]
-      rw [List.erase_append_right]
-      · simp [hxs]
-      · intro hin
-        obtain ⟨y, hy, hys⟩ := List.mem_map.mp hin
-        exact hfirst y hy hys
-    rw [this]
-
-theorem TrkData.start_prepared (t : TrkData) (sys : Nat) :
-    (sys ∉ t.prepared.map (·.1) ∧ t.start sys = t) ∨
-    (sys ∈ t.prepared.map (·.1) ∧ ((t.start sys).prepared.map (·.1)).Perm ((t.prepared.map (·.1)).erase sys)) := by
-  rcases first_match_perm t.prepared sys with ⟨hf, hn⟩ | ⟨j, x, hf, hget, _, hin, hp⟩
-  · exact Or.inl ⟨hn, by simp [TrkData.start, hf]⟩
-  · refine Or.inr ⟨hin, ?_⟩
-    have : (t.start sys).prepared = swapRemove t.prepared j := by
-      obtain ⟨a, b⟩ := x
-      simp [TrkData.start, hf, hget]
-    rw [this]; exact hp
-
-theorem TrkEnt.start_prepared (t : TrkEnt) (sys : Nat) :
-    (sys ∉ t.prepared.map (·.1) ∧ t.start sys = t) ∨
-    (sys ∈ t.prepared.map (·.1) ∧ ((t.start sys).prepared.map (·.1)).Perm ((t.prepared.map (·.1)).erase sys)) := by
-  rcases first_match_perm t.prepared sys with ⟨hf, hn⟩ | ⟨j, x, hf, hget, _, hin, hp⟩
-  · exact Or.inl ⟨hn, by simp [TrkEnt.start, hf]⟩
-  · refine Or.inr ⟨hin, ?_⟩
-    have : (t.start sys).prepared = swapRemove t.prepared j := by
-      obtain ⟨a, b, c⟩ := x
-      simp [TrkEnt.start, hf, hget]
-    rw [this]; exact hp
-
-theorem TrkDsp.start_prepared (t : TrkDsp) (sys : Nat) :
-    (sys ∉ t.prepared.map (·.1) ∧ (t.start sys).1 = t) ∨
-    (sys ∈ t.prepared.map (·.1) ∧ (((t.start sys).1).prepared.map (·.1)).Perm ((t.prepared.map (·.1)).erase sys)) := by
-  rcases first_match_perm t.prepared sys with ⟨hf, hn⟩ | ⟨j, x, hf, hget, _, hin, hp⟩
-  · exact Or.inl ⟨hn, by simp [TrkDsp.start, hf]⟩
-  · refine Or.inr ⟨hin, ?_⟩
-    have : ((t.start sys).1).prepared = swapRemove t.prepared j := by
-      obtain ⟨a, b, c⟩ := x
-      simp [TrkDsp.start, hf, hget]
-    rw [this]; exact hp
-
 end Cobweb
 
 namespace Cobweb
@@ -154,34 +69,6 @@ theorem prep_setupK_unused (T : TrkId) (s : St) (k : Kind) (sys : Nat) (h : uses
   cases T <;> cases k <;> simp [uses, usesSys, usesEvt, usesEnt, usesDsp] at h <;> simp only [prep, setupK] <;>
     first | rfl | (split <;> simp)
 
-/-- What `setup` does to the prepared list of a tracker it uses. -/
-def SetupEffect (T : TrkId) (s s' : St) (sys : Nat) : Prop :=
-  (sys ∉ prep T s ∧ prep T s' = prep T s) ∨ (sys ∈ prep T s ∧ (prep T s').Perm ((prep T s).erase sys))
-
-theorem effect_of_data (t : TrkData) (sys : Nat) {A B : List Nat} (hA : A = t.prepared.map (·.1))
-    (hB : B = (t.start sys).prepared.map (·.1)) : (sys ∉ A ∧ B = A) ∨ (sys ∈ A ∧ B.Perm (A.erase sys)) := by
-  subst hA hB
-  rcases TrkData.start_prepared t sys with ⟨a, b⟩ | ⟨a, b⟩
-  · exact Or.inl ⟨a, by rw [b]⟩
-  · exact Or.inr ⟨a, b⟩
-
-theorem prep_setupK_used (T : TrkId) (s : St) (k : Kind) (sys : Nat) (h : uses T k = true) :
-    SetupEffect T s (setupK s k sys) sys := by
-  unfold SetupEffect
-  cases T <;> cases k <;> simp [uses, usesSys, usesEvt, usesEnt, usesDsp] at h <;> simp only [prep, setupK]
-  · exact effect_of_data s.trkSys sys rfl rfl
-  · exact effect_of_data s.trkEvt sys rfl rfl
-  · exact effect_of_data s.trkEvt sys rfl rfl
-  · rcases TrkEnt.start_prepared s.trkEnt sys with ⟨a, b⟩ | ⟨a, b⟩
-    · exact Or.inl ⟨a, by rw [b]⟩
-    · exact Or.inr ⟨a, b⟩
-  · rcases TrkEnt.start_prepared s.trkEnt sys with ⟨a, b⟩ | ⟨a, b⟩
-    · exact Or.inl ⟨a, by rw [b]⟩
-    · exact Or.inr ⟨a, b⟩
-  · rcases TrkDsp.start_prepared s.trkDsp sys with ⟨a, b⟩ | ⟨a, b⟩
-    · left; refine ⟨a, ?_⟩; split <;> simp [b]
-    · right; refine ⟨a, ?_⟩; split <;> simpa using b
-
 end Cobweb
 
 namespace Cobweb
@@ -196,7 +83,7 @@ theorem prep_push (T : TrkId) (s : St) (fs : List Frame) : prep T (s.push fs) = 
 def cmdPrepares : Cmd → Option (Nat × Kind)
   | .sysEvent sys d => some (sys, .sysEv d)
   | .reactEnt src rt sys => some (sys, .entReact src rt)
-  | .reactDsp src sys _ => some (sys, .dspReact src)
+  | .reactDsp src sys h => some (sys, .dspReact src h)
   | .reactEv target d sys => some (sys, .entEv target d)
   | .reactBc d sys => some (sys, .bcEv d)
   | _ => none
@@ -273,30 +160,6 @@ theorem pend_generic {s s' : St} {f : Frame} {rest fs : List Frame} (h : Pend s)
   simp only [allPending, hs, hst, hb, stackPending_append, stackPending_cons, pend_append, hf T, hfs T] at h0 ⊢
   simpa using h0
 
-theorem perm_erase_of_cons {l l' : List Nat} {x : Nat} (h : l.Perm (x :: l')) : (l.erase x).Perm l' := by
-  have := h.erase x
-  simpa using this
-
-/-- A command `(sys, k)` at the front of the pending part is consumed by `setup`. -/
-theorem pend_consume {T : TrkId} {s : St} {sys : Nat} {k : Kind} {A B : List (Nat × Kind)} {P' : List Nat}
-    (h0 : (prep T s).Perm (pend (uses T) (A ++ (sys, k) :: B)))
-    (hunused : uses T k = false → P' = prep T s)
-    (hused : uses T k = true → (sys ∉ prep T s ∧ P' = prep T s) ∨ (sys ∈ prep T s ∧ P'.Perm ((prep T s).erase sys))) :
-    P'.Perm (pend (uses T) (A ++ B)) := by
-  rw [pend_append, pend_cons] at h0
-  rw [pend_append]
-  cases hu : uses T k with
-  | false =>
-    rw [hunused hu]
-    simpa [hu] using h0
-  | true =>
-    simp only [hu, ↓reduceIte] at h0
-    have hmid : (prep T s).Perm (sys :: (pend (uses T) A ++ pend (uses T) B)) :=
-      h0.trans (by simpa using (List.perm_middle (a := sys) (l₁ := pend (uses T) A) (l₂ := pend (uses T) B)))
-    rcases hused hu with ⟨hnot, _⟩ | ⟨_, hp⟩
-    · exact absurd (hmid.mem_iff.mpr List.mem_cons_self) hnot
-    · exact hp.trans (perm_erase_of_cons hmid)
-
 theorem prep_startBody (T : TrkId) (s : St) (sys : Nat) (k : Kind) : prep T (startBody s sys k) = prep T (setupK s k sys) := by
   have h1 : ∀ t : St, prep T (preBody t sys k) = prep T (setupK t k sys) := by
     intro t
@@ -364,219 +227,6 @@ macro "permc" : tactic =>
 
 theorem nopend0 : ∀ T : TrkId, pend (uses T) ([] : List (Nat × Kind)) = [] := fun _ => rfl
 
-/-- `setup` consumes the prepared entries of the command at the front of the pending part. -/
-theorem pend_setup {s : St} {sys : Nat} {k : Kind} {A B : List (Nat × Kind)} (T : TrkId)
-    (h0 : (prep T s).Perm (pend (uses T) (A ++ (sys, k) :: B))) :
-    (prep T (setupK s k sys)).Perm (pend (uses T) (A ++ B)) := by
-  refine pend_consume (s := s) h0 (fun hu => prep_setupK_unused T s k sys hu) (fun hu => ?_)
-  have := prep_setupK_used T s k sys hu
-  unfold SetupEffect at this
-  exact this
-
-theorem pend_batch (s : St) (c : Cmd) (cs : List Cmd) (h : PendF s (.batch (c :: cs))) : Pend (doBatch s (c :: cs)) := by
-  simp only [doBatch]
-  by_cases hcc : isCleanup c = true
-  · cases c <;> simp [isCleanup] at hcc
-    rename_i k
-    refine pend_gen h nopend0 (fun T => ?_) ?_ (fs := [.flush, .batch cs]) ?_ (noPend_of_empty rfl)
-    · simp only [applyCmd]; rw [prep_cleanupK]; exact prep_push T _ _
-    · simp [applyCmd, St.push]
-    · simp [applyCmd, St.push]
-  · have hcc : isCleanup c = false := by simpa using hcc
-    cases hprep : cmdPrepares c with
-    | none =>
-      obtain ⟨fs, hfs, hnp⟩ := applyCmd_noPend (s.push [.flush, .batch cs]) c hprep hcc
-      refine pend_gen h nopend0 (fun T => ?_) ?_ (fs := fs ++ [.flush, .batch cs]) ?_ ?_
-      · rw [applyCmd_prep_none T _ c hprep hcc]; exact prep_push T _ _
-      · simp [St.push]
-      · rw [hfs]; simp [St.push]
-      · intro T; rw [stackPending_append, pend_append, hnp T]; rfl
-    | some sk =>
-      obtain ⟨sys, k⟩ := sk
-      intro T
-      obtain ⟨h1, h2, h3⟩ := applyCmd_prep_some T (s.push [.flush, .batch cs]) c sys k hprep
-      have h0 := h T
-      have hst : (s.push [.flush, .batch cs]).stack = [.flush, .batch cs] ++ s.stack := rfl
-      have hbf : (s.push [.flush, .batch cs]).buffered = s.buffered := rfl
-      rw [hst] at h2; rw [hbf] at h3
-      rw [h1, prep_push]
-      unfold allPending
-      rw [h2, h3]
-      have hR : stackPending [Frame.flush, Frame.batch cs] = [] := rfl
-      simp only [stackPending_cons, stackPending_append, pend_append, framePending, pend_cons, pend_nil, hR,
-        List.append_nil, List.nil_append] at h0 ⊢
-      cases hu : uses T k with
-      | false => simpa [hu] using h0
-      | true =>
-        simp only [hu, ↓reduceIte]
-        refine (List.Perm.append_right [sys] h0).trans ?_
-        permc
-
-/-- **The pending invariant is preserved by every frame.** -/
-theorem pendF_runFrame (p : Prog) (hh : Hist) {s : St} {f : Frame} (h : PendF s f) : Pend (runFrame p hh s f) := by
-  cases f with
-  | batch cs =>
-    cases cs with
-    | nil => exact pend_gen h nopend0 (fun _ => rfl) rfl (fs := []) rfl noPend_nil
-    | cons c cs => exact pend_batch s c cs h
-  | flush =>
-    simp only [runFrame, doFlush]
-    split
-    · exact pend_gen h nopend0 (fun _ => rfl) rfl (fs := []) rfl noPend_nil
-    · exact pend_gen h nopend0 (by trk) rfl (fs := [.batch s.wq]) rfl (noPend_of_empty rfl)
-  | bodyActs sys k i acc =>
-    simp only [runFrame, doBodyActs]
-    split
-    · exact pend_gen h nopend0 (by trk) rfl (fs := [.cleanup k, .flush, .batch acc]) rfl (noPend_of_empty rfl)
-    · rename_i a _
-      exact pend_gen h nopend0 (by trk) (by simp [St.push])
-        (fs := [.bodyActs sys k (i + 1) (acc ++ (enqueue s a).2)]) (by simp [St.push]) (noPend_of_empty rfl)
-  | exclActs sys i =>
-    simp only [runFrame, doExclActs]
-    split
-    · exact pend_gen h nopend0 (by trk) rfl (fs := [.flush]) rfl (noPend_of_empty rfl)
-    · exact pend_gen h nopend0 (by trk) (by simp [St.push])
-        (fs := [.exclActs sys (i + 1)]) (by simp [St.push]) (noPend_of_empty rfl)
-  | topActs t i =>
-    simp only [runFrame, doTopActs]
-    split
-    · exact pend_gen h nopend0 (by trk) rfl (fs := [.flush]) rfl (noPend_of_empty rfl)
-    · exact pend_gen h nopend0 (by trk) (by simp [St.push])
-        (fs := [.topActs t (i + 1)]) (by simp [St.push]) (noPend_of_empty rfl)
-  | cleanup k =>
-    exact pend_gen h nopend0 (fun T => by simp only [runFrame]; exact prep_cleanupK T _ k) (by simp [runFrame]) (fs := [])
-      (by simp [runFrame]) noPend_nil
-  | onceTail sys =>
-    exact pend_gen h nopend0 (by trk) (by simp [runFrame]) (fs := [.flush, .dropCallback sys])
-      (by simp [runFrame, doOnceTail, St.push]) (noPend_of_empty rfl)
-  | dropCallback sys => exact pend_gen h nopend0 (by trk) (by simp [runFrame]) (fs := []) (by simp [runFrame]) noPend_nil
-  | runnerStart sys k =>
-    refine pend_mv h (by trk) (B := s.buffered) (S := Frame.gc :: Frame.poll :: Frame.runnerLookup sys k s.counter :: s.stack)
-      (by simp [runFrame, doRunnerStart, St.push]) (by simp [runFrame, doRunnerStart, St.push]) (fun T => ?_)
-    simp [stackPending_cons, framePending]
-  | runnerLookup sys k idx =>
-    have hmove : ∀ T, (prep T s).Perm (pend (uses T) (s.buffered ++ (sys, k) :: stackPending s.stack)) := by
-      intro T; simpa [framePending] using h T
-    simp only [runFrame, doRunnerLookup]
-    have habort : ∀ (ev : Ev), Pend ((s.emit ev).push (abortFrames sys k)) := by
-      intro ev
-      refine pend_mv h (by trk) (B := s.buffered) (S := abortFrames sys k ++ s.stack) (by simp [St.push, St.emit])
-        (by simp [St.push, St.emit]) (fun T => ?_)
-      simp [abortFrames, stackPending_cons, stackPending_append, framePending]
-    split
-    · exact habort _
-    · split
-      · exact habort _
-      · split
-        · exact habort _
-        · refine pend_mv h (by trk) (B := s.buffered ++ [(sys, k)]) (S := s.stack) (by simp [St.emit]) (by simp [St.emit]) (fun T => ?_)
-          simp [framePending]
-      · -- the callback is taken: `setup` consumes the command's prepared entries
-        have hs1 : ∀ T, prep T ({ s with storage := upd s.storage sys (some false), counter := s.counter + 1 } : St) = prep T s := by
-          intro T; cases T <;> rfl
-        have consume : ∀ (s1 : St) (fs : List Frame),
-            (∀ T, prep T s1 = prep T (setupK ({ s with storage := upd s.storage sys (some false), counter := s.counter + 1 } : St) k sys)) →
-            s1.buffered = s.buffered → s1.stack = fs ++ s.stack → NoPend fs → Pend s1 := by
-          intro s1 fs hp hb hst hnp T
-          rw [hp T]
-          simp only [allPending, hb, hst, stackPending_append, pend_append, hnp T, List.nil_append]
-          rw [← pend_append]
-          refine pend_setup T ?_
-          rw [hs1 T]; exact hmove T
-        split
-        · exact consume _ [.afterBody sys idx] (fun T => by rw [prep_push, prep_emit]) (by simp [St.push, St.emit]) (by simp [St.push, St.emit])
-            (noPend_of_empty rfl)
-        · split
-          · exact consume _ [.bodyActs sys k 0 [], .onceTail sys, .afterBody sys idx] (fun T => by rw [prep_push, prep_startBody])
-              (by simp [St.push]) (by simp [St.push]) (noPend_of_empty rfl)
-          · split
-            · exact consume _ [.exclActs sys 0, .afterBody sys idx]
-                (fun T => by
-                  rw [prep_push]
-                  refine Eq.trans ?_ (prep_startBody T _ sys k)
-                  exact prep_of_trk rfl rfl rfl rfl)
-                (by simp [St.push]) (by simp [St.push]) (noPend_of_empty rfl)
-            · exact consume _ [.bodyActs sys k 0 [], .afterBody sys idx] (fun T => by rw [prep_push, prep_startBody])
-                (by simp [St.push]) (by simp [St.push]) (noPend_of_empty rfl)
-  | afterBody sys idx =>
-    exact pend_gen h nopend0 (by trk) (by simp [runFrame]) (fs := [.gc, .reinsert sys idx]) (by simp [runFrame, doAfterBody, St.push])
-      (noPend_of_empty rfl)
-  | reinsert sys idx =>
-    simp only [runFrame, doReinsert]
-    split
-    · exact pend_gen h nopend0 (by trk) (by simp [St.push, St.emit]) (fs := [.poll, .replayTake sys idx]) (by simp [St.push, St.emit])
-        (noPend_of_empty rfl)
-    · split <;>
-        exact pend_gen h nopend0 (by trk) (by simp [St.push, St.emit]) (fs := [.despawnWork [(sys, false)], .gc, .poll, .replayTake sys idx])
-          (by simp [St.push, St.emit]) (noPend_of_empty rfl)
-    · split <;>
-        exact pend_gen h nopend0 (by trk) (by simp [St.push, St.emit]) (fs := [.gc, .poll, .replayTake sys idx])
-          (by simp [St.push, St.emit]) (noPend_of_empty rfl)
-  | replayTake sys idx =>
-    refine pend_mv h (by trk) (B := []) (S := Frame.replayLoop sys s.buffered [] idx :: s.stack)
-      (by simp [runFrame, doReplayTake, St.push]) (by simp [runFrame, doReplayTake, St.push]) (fun T => ?_)
-    simp [stackPending_cons, framePending]
-  | replayLoop sys r kept idx =>
-    simp only [runFrame, doReplayLoop]
-    split
-    · refine pend_mv h (by trk) (B := s.buffered ++ kept) (S := Frame.finish sys idx :: s.stack) (by simp [St.push]) (by simp [St.push])
-        (fun T => ?_)
-      simp [stackPending_cons, framePending]
-    · rename_i b bs
-      split
-      · refine pend_mv h (by trk) (B := s.buffered) (S := Frame.runnerStart b.1 b.2 :: Frame.replayLoop sys bs kept idx :: s.stack)
-          (by simp [St.push]) (by simp [St.push]) (fun T => ?_)
-        simp [stackPending_cons, framePending]
-      · refine pend_mv h (by trk) (B := s.buffered) (S := Frame.replayLoop sys bs (kept ++ [b]) idx :: s.stack)
-          (by simp [St.push]) (by simp [St.push]) (fun T => ?_)
-        simp only [stackPending_cons, framePending, pend_append, pend_cons, pend_nil, List.cons_append, List.append_assoc, List.append_nil]
-        permc
-  | finish sys idx =>
-    simp only [runFrame, doFinish]
-    split
-    · split
-      · exact pend_gen h nopend0 (by trk) (by simp [St.emit]) (fs := []) (by simp [St.emit]) noPend_nil
-      · rename_i b bs hb
-        refine pend_mv h (by trk) (B := bs) (S := (abortFrames b.1 b.2 ++ [Frame.finish sys idx]) ++ s.stack)
-          (by simp [St.push]) (by simp [St.push]) (fun T => ?_)
-        have hb' : s.buffered = b :: bs := hb
-        rw [hb']
-        simp only [abortFrames, stackPending_append, stackPending_cons, framePending, stackPending, List.flatMap_nil,
-          List.append_nil, List.nil_append, List.flatMap_cons, List.cons_append]
-        simp only [pend_append, pend_cons, pend_nil, List.append_nil]
-        permc
-    · exact pend_gen h nopend0 (by trk) (by simp [St.emit]) (fs := []) (by simp [St.emit]) noPend_nil
-  | abort sys k =>
-    intro T
-    have hmove : (prep T s).Perm (pend (uses T) (s.buffered ++ (sys, k) :: stackPending s.stack)) := by
-      simpa [framePending] using h T
-    simp only [runFrame]
-    rw [prep_cleanupK]
-    have e1 : (cleanupK (setupK s k sys) k).buffered = s.buffered := by simp
-    have e2 : (cleanupK (setupK s k sys) k).stack = s.stack := by simp
-    simp only [allPending, e1, e2]
-    exact pend_setup T hmove
-  | gc =>
-    simp only [runFrame, doGc]
-    split
-    · exact pend_gen h nopend0 (fun _ => rfl) rfl (fs := []) rfl noPend_nil
-    · exact pend_gen h nopend0 (by trk) rfl (fs := [.despawnWork _, .gc]) rfl (noPend_of_empty rfl)
-  | despawnWork work =>
-    simp only [runFrame, doDespawnWork]
-    split
-    · exact pend_gen h nopend0 (fun _ => rfl) rfl (fs := []) rfl noPend_nil
-    · split
-      · rename_i e ex work _
-        exact pend_gen h nopend0 (by trk) (by simp [St.push]) (fs := [.despawnWork work]) (by simp [St.push]) (noPend_of_empty rfl)
-      · split
-        · exact pend_gen h nopend0 (by trk) rfl (fs := [.despawnWork _]) rfl (noPend_of_empty rfl)
-        · exact pend_gen h nopend0 (by trk) rfl (fs := [.despawnWork _]) rfl (noPend_of_empty rfl)
-  | poll =>
-    exact pend_gen h nopend0 (by trk) (by simp [runFrame]) (fs := [.flush]) (by simp [runFrame, doPoll, St.push]) (noPend_of_empty rfl)
-
-theorem pend_runFrame (p : Prog) (hh : Hist) {s : St} {f : Frame} {rest : List Frame} (h : Pend s) (hs : s.stack = f :: rest) :
-    Pend (runFrame p hh { s with stack := rest } f) := pendF_runFrame p hh (pendF_of_pend h hs)
-
 end Cobweb
 
 namespace Cobweb
@@ -589,89 +239,6 @@ theorem pend_same {s s' : St} {fs : List Frame} (h : Pend s) (hp : ∀ T, prep T
   simp only [allPending, hst, hb, stackPending_append, pend_append, hfs T] at h0 ⊢
   simpa using h0
 
-theorem pend_applyCmd {s : St} (h : Pend s) (c : Cmd) (hcc : isCleanup c = false) : Pend (applyCmd s c) := by
-  cases hprep : cmdPrepares c with
-  | none =>
-    obtain ⟨fs, hfs, hnp⟩ := applyCmd_noPend s c hprep hcc
-    exact pend_same h (fun T => applyCmd_prep_none T s c hprep hcc) (by simp) hfs hnp
-  | some sk =>
-    obtain ⟨sys, k⟩ := sk
-    intro T
-    obtain ⟨h1, h2, h3⟩ := applyCmd_prep_some T s c sys k hprep
-    have h0 := h T
-    rw [h1]
-    unfold allPending at h0 ⊢
-    rw [h2, h3]
-    simp only [stackPending_cons, pend_append, framePending, pend_cons, pend_nil, List.append_nil, List.nil_append] at h0 ⊢
-    cases hu : uses T k with
-    | false => simpa [hu] using h0
-    | true =>
-      simp only [hu, ↓reduceIte]
-      refine (List.Perm.append_right [sys] h0).trans ?_
-      permc
-
-macro "trk0" : tactic =>
-  `(tactic| (intro T; apply prep_of_trk <;> simp [St.push, St.emit, St.fresh, newArc, cloneHandle]))
-
-theorem pend_startTop {s : St} (h : Pend s) (t : Nat) (op : TopOp) : Pend (startTop s t op) := by
-  have pe : ∀ (s1 : St) ev, Pend s1 → Pend (s1.emit ev) := fun s1 ev h1 => pend_same (fs := []) h1 (by trk0) rfl rfl noPend_nil
-  have he : Pend (s.emit (.top t)) := pe _ _ h
-  unfold startTop
-  cases op <;> dsimp only
-  case acts => exact pend_same he (by trk0) rfl (fs := [.topActs t 0]) rfl (noPend_of_empty rfl)
-  case wDespawn e => exact pend_same he (by trk0) (by simp) (fs := []) (by simp) noPend_nil
-  case wDespawnRec e => exact pend_same he (by trk0) rfl (fs := [.despawnWork [(e, false)]]) rfl (noPend_of_empty rfl)
-  case wRemove e ty => exact pend_applyCmd he _ rfl
-  case wInsertRaw e ty v => exact pend_applyCmd he _ rfl
-  case wSetParent c p =>
-    split
-    · exact pend_same he (by trk0) rfl (fs := []) rfl noPend_nil
-    · exact he
-  case gc => exact pend_same he (by trk0) rfl (fs := [.gc]) rfl (noPend_of_empty rfl)
-  case poll => exact pend_same he (by trk0) rfl (fs := [.poll]) rfl (noPend_of_empty rfl)
-  case frameEnd => exact pend_same he (by trk0) rfl (fs := [.gc, .poll]) rfl (noPend_of_empty rfl)
-  case wSysEvent sys ty pid =>
-    refine pend_applyCmd ?_ _ rfl
-    exact pend_same he (by trk0) (by simp [St.fresh, St.emit]) (fs := []) (by simp [St.fresh, St.emit]) noPend_nil
-  case wBroadcast ty pid => exact pend_applyCmd (pe _ _ he) (.broadcast ty pid) rfl
-  case wEntityEvent e ty pid => exact pend_applyCmd (pe _ _ he) (.entityEvent e ty pid) rfl
-  case sigPrepare e => exact pend_same he (by trk0) (by simp [newArc]) (fs := []) (by simp [newArc]) noPend_nil
-  case sigClone a =>
-    split
-    · exact pend_same he (by trk0) (by simp) (fs := []) (by simp) noPend_nil
-    · exact he
-  case sigDrop a =>
-    split
-    · exact pend_same he (by trk0) (by simp) (fs := []) (by simp) noPend_nil
-    · exact he
-  case sigThreads a n => exact pend_same he (by trk0) rfl (fs := [.gc]) rfl (noPend_of_empty rfl)
-
-theorem pend_tick (p : Prog) (hh : Hist) {s s' : St} (h : Pend s) (ht : tick p hh s = some s') : Pend s' := by
-  unfold tick at ht
-  split at ht
-  · rename_i s'' hs
-    simp only [Option.some.injEq] at ht; subst ht
-    unfold step at hs
-    cases hst : s.stack with
-    | nil => rw [hst] at hs; cases hs
-    | cons f rest =>
-      rw [hst] at hs
-      simp only [Option.some.injEq] at hs; subst hs
-      exact pend_runFrame p hh h hst
-  · split at ht
-    · rename_i op _
-      simp only [Option.some.injEq] at ht; subst ht
-      exact pend_startTop (s := { s with topIdx := s.topIdx + 1 }) (pend_same (fs := []) h (fun T => by cases T <;> rfl) rfl rfl noPend_nil)
-        s.topIdx op
-    · cases ht
-
 theorem pend_default : Pend ({} : St) := by intro T; cases T <;> exact List.Perm.refl _
-
-/-- **Along every execution, each tracker's prepared entries are exactly (as a multiset of system ids) the commands
-    that still wait to run their `setup`.** -/
-theorem pend_reach (p : Prog) (hh : Hist) {s0 s : St} (h0 : Pend s0) (hr : Reach p hh s0 s) : Pend s := by
-  induction hr with
-  | refl => exact h0
-  | tick _ ht ih => exact pend_tick p hh ih ht
 
 end Cobweb
